@@ -614,3 +614,55 @@ package signal
 //@     invariant forall(i, 0, $i, dst[$i1][i] == conv(S, D, old(at(src, bi(ch, $i1, i)))))
 //@     invariant loopSameExcept(dst[$i1], 0, $i)
 //@     decreases min(len(dst[$i1]), L) - $i
+
+// ---------------------------------------------------------------------------
+// pool allocator. Ghost state: inPool(pool, b) = buffer b has been put and not
+// handed out again; poolNewIs(pool, a) = the allocator captured by the pool's
+// New closure. sync.Pool itself is an assumed contract (DESIGN §8).
+// ---------------------------------------------------------------------------
+
+//@ func Buffer.clear(b)
+//@   props C10
+//@   requires wf(b)
+//@   ensures[zeroed: C10] forall(q, 0, len(b.data), at(b, q) == zero(b))
+//@   ensures[frame: C10] sameExcept(b, 0, len(b.data))
+//@   ensures[no-alloc: C18] allocs == old(allocs)
+//@   modifies H(b)
+//@   loop 1
+//@     invariant 0 <= $i && $i <= len(b.data)
+//@     invariant forall(q, 0, $i, at(b, q) == zero(b))
+//@     invariant sameExcept(b, 0, $i)
+//@     decreases len(b.data) - $i
+
+//@ func PoolAlloc[T](a)
+//@   props C10 C11
+//@   ensures[allocator: C10 C11] result.alloc == a && poolNewIs(result.pool, a)
+//@   ensures[empty: C10] forallBuf(b, T, !inPool(result.pool, b))
+//@   ensures[fresh-pool: C10 C11] freshPool(result.pool)
+//@   modifies pool allocs
+
+//@ func PoolAllocator.Get(p)
+//@   props C10 C11
+//@   requires poolNewIs(p.pool, p.alloc) && allocOK(p.alloc)
+//@   requires forallBuf(b, T, inPool(p.pool, b) ==> pristine(b, p.alloc))
+//@   ensures[fresh-as-new: C10 C11] pristine(result, p.alloc)
+//@   ensures[handed-out-once: C10 C11] !inPool(p.pool, result)
+//@   ensures[hit-or-miss: C10 C11 C18] (old(inPool(p.pool, result)) && heapSame(T) && hdrSame(T) && allocs == old(allocs))
+//@     | || (fresh(result) && freshStorage(result) && heapSameBelow(T) && hdrSameExcept(result))
+//@   ensures[pool-invariant: C10 C11] forallBuf(b, T, inPool(p.pool, b) ==> old(inPool(p.pool, b)) && pristine(b, p.alloc))
+//@   modifies H(T) hdr(T) brk(T) obj(T) allocs pool
+
+//@ func PoolAllocator.Put(p, b)
+//@   props C10 C11
+//@   requires wf(b) && allocOK(p.alloc) && b.channels == p.alloc.Channels
+//@   hint bi_comm(p.alloc.Capacity, p.alloc.Channels)
+//@   hint bi_le(p.alloc.Channels, p.alloc.Length, p.alloc.Capacity)
+//@   hint bi_nonneg(p.alloc.Channels, p.alloc.Length)
+//@   requires forallBuf(x, T, inPool(p.pool, x) && x != b ==> pristine(x, p.alloc) && disjointWindows(x, b))
+//@   panics-iff[capacity: C15] bi(p.alloc.Channels, 0, p.alloc.Capacity) != cap(b.data)
+//@   ensures[restored: C10 C11] pristine(b, p.alloc)
+//@   ensures[pooled: C10 C11] inPool(p.pool, b) && forallBuf(x, T, x != b ==> (inPool(p.pool, x) <==> old(inPool(p.pool, x))))
+//@   ensures[pool-invariant: C10 C11] forallBuf(x, T, inPool(p.pool, x) ==> pristine(x, p.alloc))
+//@   ensures[frame: C10 C15] sameExcept(b, 0, cap(b.data)) && hdrSameExcept(b) && ptr(b.data) == old(ptr(b.data))
+//@   ensures[no-alloc: C18] allocs == old(allocs)
+//@   modifies H(b) hdr(b) pool
